@@ -1,6 +1,7 @@
 package main
 
 import (
+	"os"
 	"fmt"
 	"go/constant"
 	"go/types"
@@ -191,11 +192,22 @@ func (tr *Tr) rval(env *CEnv, v Value, t types.Type) Value {
 }
 
 func (tr *Tr) evalIdent(env *CEnv, name string) (Value, types.Type) {
+	if os.Getenv("GOVC_DEBUG") == name {
+		fn := "?"
+		if env.fr != nil {
+			fn = env.fr.fn.Name()
+		}
+		_, inVars := env.vars[name]
+		fmt.Fprintf(os.Stderr, "evalIdent %s in frame %s: inVars=%v\n", name, fn, inVars)
+	}
 	if ev, ok := env.vars[name]; ok {
 		return ev.V, ev.T
 	}
 	if env.fr != nil {
 		if d, ok := env.fr.lookupNameAt(name, env.at, env.atIdx-1+1); ok {
+			if os.Getenv("GOVC_DEBUG") == name {
+				fmt.Fprintf(os.Stderr, "  own-frame def %v %T isAddr=%v in %s\n", d.val, d.val, d.isAddr, d.val.Parent().Name())
+			}
 			saved := env.fr.over
 			env.fr.over = env.over
 			v := tr.val(env.fr, d.val)
@@ -218,6 +230,38 @@ func (tr *Tr) evalIdent(env *CEnv, name string) (Value, types.Type) {
 				v := tr.val(env.fr, d.val)
 				env.fr.over = saved
 				return Sc{T: sAdd(tr.asSc(v, nil).T, "1")}, nil
+			}
+		}
+	}
+	// a loop invariant of a function that is being inlined (a callee without contract, a closure) may name variables of
+	// the functions it is inlined into: they are looked up at the position of the pending call, innermost caller first
+	if env.fr != nil {
+		for pf := env.fr.parent; pf != nil; pf = pf.parent {
+			if pf.curBlk == nil {
+				continue
+			}
+			if d, ok := pf.lookupNameAt(name, pf.curBlk, pf.curIdx); ok {
+				// a variable captured by a closure lives in a cell: its current contents, not the value of its last
+				// syntactic definition in this frame, is what the name means while the callee runs
+				if !d.isAddr {
+					for _, cand := range pf.names[name] {
+						if _, isAlloc := cand.val.(*ssa.Alloc); isAlloc && cand.isAddr {
+							d = cand
+							break
+						}
+					}
+				}
+				v := tr.val(pf, d.val)
+				t := d.val.Type()
+				if d.isAddr {
+					pt := t.Underlying().(*types.Pointer).Elem()
+					rv := tr.loadAt(env.st, tr.locOf(v, pt), pt)
+					if os.Getenv("GOVC_DEBUG") != "" {
+						fmt.Fprintf(os.Stderr, "parent-scope %s -> %v (loc %v)\n", name, rv, tr.locOf(v, pt))
+					}
+					return rv, pt
+				}
+				return v, t
 			}
 		}
 	}
